@@ -60,12 +60,14 @@ func concCheck(id, tier string, quick, thorough time.Duration, progs []prog, qb,
 	}
 	defer pool.Close()
 	b := qb
+	var cap int64
 	if tier == "thorough" {
 		b = tb
+		cap = 4_000_000 // executions per program and bound; a capped bound is reported as not completed
 	}
 	var items []conc.Item
 	for _, p := range progs {
-		items = append(items, conc.Item{Name: "db", Params: p.src, MaxBound: b, Label: id + "/" + p.name})
+		items = append(items, conc.Item{Name: "db", Params: p.src, MaxBound: b, MaxExecs: cap, Label: id + "/" + p.name})
 	}
 	sum := conc.RunItems(rp, pool, items, budget, verbose())
 	ev := &hk.Evidence{PropertyID: id, Tier: tier, Level: "model_checking", Coverage: sum.Coverage(rule),
@@ -75,16 +77,16 @@ func concCheck(id, tier string, quick, thorough time.Duration, progs []prog, qb,
 }
 
 func c06(tier string) int {
-	return concCheck("C06", tier, 150*time.Second, 30*time.Minute, c06Programs, 1, 2,
+	return concCheck("C06", tier, 300*time.Second, 40*time.Minute, c06Programs, 2, 3,
 		"every schedule with at most N deviations (preemptions, early timers, non-default select arms) of 10 client programs (2-4 clients: autocommit, RU/RC transactions, a GC actor, shared keys) over inline.Open..Close on the real stack; oracle: call/return history linearizable w.r.t. the sequential model (C01-C03), no deadlock, no panic, no leaked thread")
 }
 
 func c07(tier string) int {
-	return concCheck("C07", tier, 120*time.Second, 20*time.Minute, c07Programs, 1, 2,
+	return concCheck("C07", tier, 120*time.Second, 25*time.Minute, c07Programs, 2, 3,
 		"every schedule with at most N deviations of programs in which 2-3 snapshot transactions (and an autocommit or RC writer) with intersecting write sets, all begun and written sequentially, commit concurrently; oracle: history linearizable w.r.t. the model, in which the second committer fails with ErrTxSerialization and its writes vanish (final reads by an independent client)")
 }
 
 func c08(tier string) int {
-	return concCheck("C08", tier, 150*time.Second, 25*time.Minute, c08Programs, 1, 2,
+	return concCheck("C08", tier, 300*time.Second, 40*time.Minute, c08Programs, 2, 3,
 		"every schedule with at most N deviations of programs with a snapshot reader (Begin, repeated reads, GetKeys) against multi-key committers, autocommit writers, other Begins and the GC actor; oracle: history linearizable w.r.t. the model with Begin as the snapshot point (atomic visibility of every commit, stable re-reads, no lost version)")
 }
